@@ -58,7 +58,7 @@ def gen_direct(rng):
         # put the requirement right at the budget
         req = sum(l["w"] for l in labels) + opts["nodeSpacing"] * (n - 1)
         opts["density"] = 1.0
-        opts["layerWidth"] = req + rng.choice([0, 0, 1e-9, -1e-9, 1, -1])
+        opts["layerWidth"] = rng.choice([req, req, req + 1e-9, req - 1e-9, req + 1, req - 1, req * (1 - 3e-7), req * (1 + 3e-7), req * (1 - 2e-8)])
         if opts["layerWidth"] <= 0:
             opts["layerWidth"] = 100
     return labels, opts
